@@ -212,3 +212,168 @@ Section CopyTransform.
     - rewrite Hap in H. inversion H; subst. cbn [sbind]. split; reflexivity.
   Qed.
 End CopyTransform.
+
+(* ------------------------------------------------------------------ *)
+(** * update(a=v, ...) without _inplace: deep copy, then the assignments on the copy *)
+
+Section UpdateCopyBody.
+  Variable ct : ctable.
+  Local Opaque iterM thawed deepcopy.
+
+  Lemma update_body_copy_ok rec l p0 ps s l' s2 :
+    deepcopy ct (VRef l) s = (Ok (VRef l'), s2) ->
+    mutate_value ct rec (mkmv (VRef l) VMissing false PNone (Some (p0 :: ps)) None None None [] false) s =
+    bind (thawed ct l' true (assign_all rec l' (p0 :: ps))) (fun _ => ret (VRef l')) s2.
+  Proof.
+    intro Hdc. unfold mutate_value. cbn [mv_new]. unfold mutate_value_body.
+    cbn [mv_new mv_old mv_replace mv_prepare mv_attrs mv_ctor mv_expected mv_transform mv_attr_transforms
+         mv_inplace is_missing negb andb orb].
+    cbn [bind ret get_heap thawed_val loc_of existsb].
+    rewrite ?bind_ret. unfold protect. cbn [val_is_scalar].
+    rewrite bind_assoc. rewrite (bind_ok _ _ _ _ _ Hdc). cbn [thawed_val].
+    match goal with |- context [iterM ?f (p0 :: ps)] => set (F := f) end.
+    assert (E : iterM F (p0 :: ps) = assign_all rec l' (p0 :: ps)).
+    { unfold assign_all. apply iterM_ext. intros [a0 v0]. subst F. cbv beta. cbn [fst snd loc_of].
+      destruct (is_missing v0); reflexivity. }
+    rewrite E. unfold bind.
+    destruct (thawed ct l' true (assign_all rec l' (p0 :: ps)) s2) as [[u|e] s3]; reflexivity.
+  Qed.
+
+  Lemma update_body_copy_err rec l p0 ps s e s2 :
+    deepcopy ct (VRef l) s = (Err e, s2) ->
+    mutate_value ct rec (mkmv (VRef l) VMissing false PNone (Some (p0 :: ps)) None None None [] false) s =
+    (Err e, s2).
+  Proof.
+    intro Hdc. unfold mutate_value. cbn [mv_new]. unfold mutate_value_body.
+    cbn [mv_new mv_old mv_replace mv_prepare mv_attrs mv_ctor mv_expected mv_transform mv_attr_transforms
+         mv_inplace is_missing negb andb orb].
+    cbn [bind ret get_heap thawed_val loc_of existsb].
+    rewrite ?bind_ret. unfold protect. cbn [val_is_scalar].
+    rewrite bind_assoc. now rewrite (bind_err _ _ _ _ _ Hdc).
+  Qed.
+End UpdateCopyBody.
+
+Lemma thawed_unfrozen {A} ct l' thaw (m : M A) s2 c d' k :
+  nth_error (heap s2) l' = Some (OInst c d') -> lookup_cls ct c = Some k -> c_frozen k = false ->
+  thawed ct l' thaw m s2 = m s2.
+Proof.
+  intros Hl Hc Hfz. unfold thawed. rewrite (bind_ok _ _ _ _ _ (read_run l' s2 _ Hl)).
+  rewrite (bind_ok _ _ _ _ _ (cls_of_at ct c s2 k Hc)). rewrite Hfz. cbn [negb]. now rewrite orb_true_r.
+Qed.
+
+(* ------------------------------------------------------------------ *)
+(** * reset_<a>() and update(a=v, ...) without _inplace, unfrozen class *)
+
+Section CopyUnfrozen.
+  Variable ct : ctable.
+  Variable h0 : list obj.
+  Variables (l : loc) (c : cid) (d : list (aid * val)) (k : cls).
+  Variable s : state.
+  Hypothesis Hl : nth_error (heap s) l = Some (OInst c d).
+  Hypothesis Hc : lookup_cls ct c = Some k.
+  Hypothesis Hd : NoDup (map fst d).
+  Hypothesis Hflat : flat_fields (heap s) d.
+  Hypothesis Hdnc : c_dnc k = false.
+  Hypothesis Hfz : c_frozen k = false.
+  Hypothesis Hni : no_inval k.
+  Hypothesis Hfa : fail_at s = None.
+  Hypothesis Hpc : c_post_copy k = None.
+
+  Notation X := (absv (heap s) (VRef l)).
+
+  (* the deep copy: a fresh flat twin of the receiver *)
+  Lemma copy_twin :
+    exists l' d' s2,
+      deepcopy ct (VRef l) s = (Ok (VRef l'), s2) /\ length (heap s) <= l' /\
+      nth_error (heap s2) l' = Some (OInst c d') /\ NoDup (map fst d') /\
+      absv (heap s2) (VRef l') = X /\ aok (absv (heap s2) (VRef l')) = true /\
+      fail_at s2 = None /\
+      (forall i, i < length (heap s) -> nth_error (heap s2) i = nth_error (heap s) i).
+  Proof.
+    destruct (deepcopy_flat_ok ct l s c d k Hl Hc Hdnc Hflat Hpc) as [r0 [s2 Hdc]].
+    destruct (deepcopy_flat_abs ct l s c d k r0 s2 22 Hl Hc Hdnc Hflat Hdc)
+      as [l' [d' [-> [Hfresh [Hcell [Hkeys [Hflat' [Habs [Hfail Hsame]]]]]]]]].
+    exists l', d', s2. split; [exact Hdc|]. split; [exact Hfresh|]. split; [exact Hcell|]. split.
+    { exact (eq_ind _ (fun l0 => NoDup l0) Hd _ (eq_sym Hkeys)). }
+    split; [rewrite !absv_unfold; exact Habs|]. split; [exact (aok_flat _ l' c d' Hcell Hflat')|].
+    split; [now rewrite Hfail|exact Hsame].
+  Qed.
+
+  Lemma spec_copy_is_inplace hp ahc ahi x' :
+    x' = X -> ah_if ahc = true -> ah_inplace ahc = false -> ah_if ahi = true ->
+    match hp with SSetAttrOp _ | SDelAttrOp _ => False | _ => True end ->
+    spec_unfrozen ct h0 x' hp ahc = spec_unfrozen ct h0 x' hp ahi ->
+    spec_helper ct h0 X hp ahc = spec_helper ct h0 x' hp ahi.
+  Proof.
+    intros -> Hifc Hinc Hifi Hhp E.
+    rewrite (spec_helper_copy ct h0 l c d s Hl hp ahc Hifc Hinc Hhp).
+    rewrite (spec_helper_inplace_unfrozen ct h0 l c d k s Hl Hc Hfz hp ahi Hifi).
+    rewrite (absv_recv l c d s Hl) in E. exact E.
+  Qed.
+
+  (* ---- reset_<a>() ---- *)
+  Theorem reset_scalar_copy_unfrozen a sp :
+    lookup_attr k a = Some sp -> ty_depth (a_ty sp) < FUEL -> ty_is_collection (a_ty sp) = false ->
+    match a_prepare sp with Some f => scalar_fn f = true | None => True end ->
+    literal_default a k sp -> vscalar (class_default k a) = true \/ class_default k a = VMissing ->
+    let h := mkh [] false true VMissing false None None [] None in
+    let ah := mkah [] false true AMissing false None None [] None in
+    match run_helper ct l (HReset a) h s with
+    | (Ok r, s') => exists l', r = VRef l' /\ length (heap s) <= l' /\
+                    spec_helper ct h0 X (SReset a) ah = SOk (absv (heap s') (VRef l')) /\
+                    (forall i, i < length (heap s) -> nth_error (heap s') i = nth_error (heap s) i)
+    | (Err e, s') => spec_helper ct h0 X (SReset a) ah = SErr e /\
+                     (forall i, i < length (heap s) -> nth_error (heap s') i = nth_error (heap s) i)
+    end.
+  Proof.
+    intros Ha Hty Hnc Hp Hlit Hdv h ah.
+    destruct copy_twin as [l' [d' [s2 [Hdc [Hfresh [Hcell [Hd' [Habs [Hok' [Hfa2 Hsame]]]]]]]]]].
+    (* the model: the in-place call on the twin *)
+    assert (Hrun : run_helper ct l (HReset a) h s =
+                   run_helper ct l' (HReset a) (mkh [] true true VMissing false None None [] None) s2).
+    { unfold run_helper, h. cbn [h_if negb h_inplace]. rewrite bind_assoc.
+      rewrite (bind_ok _ _ _ _ _ Hdc). cbn [loc_of]. rewrite !bind_ret.
+      unfold bind. rewrite !(thawed_unfrozen ct l' _ _ s2 c d' k Hcell Hc Hfz). reflexivity. }
+    rewrite Hrun.
+    rewrite (spec_copy_is_inplace (SReset a) ah (mkah [] true true AMissing false None None [] None)
+               (absv (heap s2) (VRef l')) Habs eq_refl eq_refl eq_refl I eq_refl).
+    pose proof (reset_scalar_inplace_refines ct h0 l' a c d' k sp s2 Hcell Hc Ha Hd' Hok' Hfz Hni Hfa2 Hty Hnc Hp Hlit Hdv) as H.
+    cbv zeta in H.
+    destruct (run_helper ct l' (HReset a) (mkh [] true true VMissing false None None [] None) s2) as [[r|e] s'].
+    - destruct H as [-> [Hs Hoth]]. exists l'. split; [reflexivity|]. split; [exact Hfresh|]. split; [exact Hs|].
+      intros i Hi. rewrite Hoth by lia. now apply Hsame.
+    - destruct H as [Hs Hh]. split; [exact Hs|]. intros i Hi. rewrite Hh. now apply Hsame.
+  Qed.
+
+  (* ---- update(a=v, b=w, ...) ---- *)
+  Theorem update_top_copy_unfrozen p0 ps :
+    forallb (kw_ok k) (p0 :: ps) = true ->
+    let h := mkh [] false true VMissing false None (Some (p0 :: ps)) [] None in
+    let ah := mkah [] false true AMissing false None (Some (akw (p0 :: ps))) [] None in
+    match run_helper ct l HUpdateTop h s with
+    | (Ok r, s') => exists l', r = VRef l' /\ length (heap s) <= l' /\
+                    spec_helper ct h0 X SUpdateTop ah = SOk (absv (heap s') (VRef l')) /\
+                    (forall i, i < length (heap s) -> nth_error (heap s') i = nth_error (heap s) i)
+    | (Err e, s') => spec_helper ct h0 X SUpdateTop ah = SErr e /\
+                     (forall i, i < length (heap s) -> nth_error (heap s') i = nth_error (heap s) i)
+    end.
+  Proof.
+    intros Hkws h ah.
+    destruct copy_twin as [l' [d' [s2 [Hdc [Hfresh [Hcell [Hd' [Habs [Hok' [Hfa2 Hsame]]]]]]]]]].
+    assert (Hrun : run_helper ct l HUpdateTop h s =
+                   run_helper ct l' HUpdateTop (mkh [] true true VMissing false None (Some (p0 :: ps)) [] None) s2).
+    { rewrite (update_inplace_is_iterated_setattr ct l' p0 ps s2 c d' k Hcell Hc).
+      unfold run_helper, h. cbn [h_if negb pos0 h_pos nth h_kw h_inplace]. rewrite exec_XFUEL_mv.
+      rewrite (update_body_copy_ok ct _ l p0 ps s l' s2 Hdc).
+      unfold bind. now rewrite (thawed_unfrozen ct l' _ _ s2 c d' k Hcell Hc Hfz). }
+    rewrite Hrun.
+    rewrite (spec_copy_is_inplace SUpdateTop ah (mkah [] true true AMissing false None (Some (akw (p0 :: ps))) [] None)
+               (absv (heap s2) (VRef l')) Habs eq_refl eq_refl eq_refl I eq_refl).
+    pose proof (update_top_inplace_refines ct h0 l' c k Hc Hfz Hni d' s2 p0 ps Hcell Hd' Hok' Hfa2 Hkws) as H.
+    cbv zeta in H.
+    destruct (run_helper ct l' HUpdateTop (mkh [] true true VMissing false None (Some (p0 :: ps)) [] None) s2) as [[r|e] s'].
+    - destruct H as [-> [Hs [Hoth _]]]. exists l'. split; [reflexivity|]. split; [exact Hfresh|]. split; [exact Hs|].
+      intros i Hi. rewrite Hoth by lia. now apply Hsame.
+    - destruct H as [Hs [Hoth _]]. split; [exact Hs|]. intros i Hi. rewrite Hoth by lia. now apply Hsame.
+  Qed.
+End CopyUnfrozen.
